@@ -584,3 +584,59 @@ def run(ctx):
                     r8.violation("%s:partly-initialised" % fn.name, "a path through %s stores only %s of the slot" % (fn.name, sorted(st)), loc=fn.file)
         C.explore(af, Init())
         r8.ok("%s stores every scalar field (%s) of the new session's slot" % (af.qname, scalars), "field coverage on all paths")
+
+    # ------------------------------------------------------------------ R9
+    r9 = ctx.rule("C14.R9", "a session that has hung up or was reset is still `readable`: the predicate that gates the session's read answers true whenever POLLIN is reported")
+    check_readable_predicate(P, r9)
+
+
+def check_readable_predicate(P, rule):
+    """the control server reads a session only when ut_is_readable() says so, and a failing read is the only way a dead
+    session is ever removed.  poll() reports a reset or hung-up peer as POLLIN together with POLLERR/POLLHUP; the
+    predicate, folded exactly over poll()'s result and every combination of those bits, must be true iff exactly one
+    descriptor is ready and POLLIN is among its events."""
+    from .. import interp as I
+    f = P.fn("ut_is_readable")
+    POLLIN, POLLERR, POLLHUP, POLLNVAL = 1, 8, 16, 32
+    rule.instance(f.qname)
+    bad = []
+    n = 0
+    for rc in (-1, 0, 1):
+        for rev in range(64):
+            if rev & ~(POLLIN | POLLERR | POLLHUP | POLLNVAL | 2 | 4):
+                continue
+            it = I.Interp(P, stubs={"__errno_location": lambda a: 1})
+            it.record_calls = True
+            it.opaque_decls = True
+            it.mem = {}
+
+            def poll(a, it=it, rc=rc, rev=rev):
+                for k in [p for p in ("pfd.revents",)]:
+                    it.mem[k] = rev
+                return rc
+            it.stubs["poll"] = poll
+            # the local pollfd may have any name: find the path text of the `revents` read
+            rp = [f.show(x) for x, m in f.nodes.items() if m["k"] == "member" and m.get("field") == "revents"]
+            if len(set(rp)) != 1:
+                raise Broken("readable-predicate: revents is read through %s" % sorted(set(rp)))
+
+            def poll2(a, it=it, rc=rc, rev=rev, path=rp[0]):
+                it.mem[path] = rev
+                return rc
+            it.stubs["poll"] = poll2
+            try:
+                got = bool(it.call(f, [5]))
+            except I.Unsupported as e:
+                raise Broken("readable-predicate: %s cannot be folded (%s)" % (f.name, e))
+            n += 1
+            want = rc == 1 and bool(rev & POLLIN)
+            if got != want:
+                bad.append((rc, rev, got))
+    if n < 48:
+        raise Broken("readable-predicate: only %d combinations folded" % n)
+    if bad:
+        rc, rev, got = bad[0]
+        rule.violation("ut_is_readable:predicate", "ut_is_readable answers %s for poll()=%d with revents=0x%x (POLLIN=1, POLLERR=8, POLLHUP=16): a session whose peer has gone is "
+                       "never read again, so it is never removed - its slot, its descriptor and its epoll registration stay, and the owner's xcm_fd() stays readable" % (got, rc, rev), loc=f.file)
+    else:
+        rule.ok("%s is true iff one descriptor is ready with POLLIN, for all %d combinations of result and event bits" % (f.qname, n), "exact folding")
